@@ -4,6 +4,8 @@ parser, evidence writer, known-findings bookkeeping, VIOLATION reporting."""
 import json, random, os, re, shutil, subprocess, sys, tempfile, time, hashlib, random
 
 VERIF = os.path.dirname(os.path.dirname(os.path.abspath(__file__)))
+# evidence directory; runs against a seeded (deliberately broken) tree redirect it so that the committed evidence stays that of /repo
+EVDIR = os.environ.get("VERIF_EVIDENCE_DIR") or os.path.join(VERIF, "evidence")
 # reference implementations (zstd, xz, bzip2, bsdtar, GNU tar) may live outside a minimal PATH
 for _d in ("/root/miniconda/bin", "/opt/conda/bin", "/usr/local/bin", "/usr/bin", "/bin"):
     if os.path.isdir(_d) and _d not in os.environ.get("PATH", "").split(":"):
@@ -497,8 +499,8 @@ class Evidence:
              "wall_s": round(time.time() - self.t0, 2), "violations": self.violations}
         if self.known:
             d["coverage"]["known_findings_seen"] = self.known
-        os.makedirs(os.path.join(VERIF, "evidence"), exist_ok=True)
-        p = os.path.join(VERIF, "evidence", self.pid + ".json")
+        os.makedirs(EVDIR, exist_ok=True)
+        p = os.path.join(EVDIR, self.pid + ".json")
         json.dump(d, open(p + ".tmp", "w"), indent=1, default=str)
         os.replace(p + ".tmp", p)
 
@@ -536,7 +538,7 @@ class Reporter:
                 print("KNOWN-FINDING: property=%s %s [%s]" % (self.pid, it["what"], key))
                 self.ev.known += 1
             return False
-        d = os.path.join(VERIF, "evidence", "replay", self.pid)
+        d = os.path.join(EVDIR, "replay", self.pid)
         os.makedirs(d, exist_ok=True)
         name = re.sub(r"[^A-Za-z0-9_.-]", "_", key)[:80]
         path = os.path.join(d, name + ".json")
